@@ -26,6 +26,10 @@ CLASS_SELF_TAG = {"DSDLDefinition": SELF}
 CLASS_FIELDS = {"DataTypeBuilder": {"_definition": OWN, "_lookup_definitions": ANY, "_print_output_handler": ANY},
                 "PathInferenceError": {"valid_dsdl_roots": ANY}}
 
+# local names that hold classes of other modules (A4) or user callbacks (A3) and may receive tagged values
+CALLABLE_PARAMS = {B + ".DataTypeBuilder._make_composite": ("ty",),
+                   R + "._read_definitions": ("print_output_handler",)}
+
 READ = E(params={"lookup_definitions": ANY, "print_output_handler": ANY}, evals={SELF}, internal={RESOLVED},
          eval_params=["self"], returns=RESULT, self_tag=SELF,
          why="evaluates the receiver; everything else it evaluates is resolved by reference from the lookup list")
@@ -152,7 +156,7 @@ for _c in CONTRACTS.values():
 
 
 def effect_check(eng, tier, seed):
-    out = check(eng.repo, MODULES, CONTRACTS, CLASS_FIELDS, CLASS_SELF_TAG)
+    out = check(eng.repo, MODULES, CONTRACTS, CLASS_FIELDS, CLASS_SELF_TAG, callable_params=CALLABLE_PARAMS)
     out["assumed_contracts"] = {q: c.assumed for q, c in CONTRACTS.items() if c.assumed}
     return out
 
